@@ -16,7 +16,8 @@ RULE = ('Evaluation = one triple of executions (A, A\\u2032, A\\u2033) of the re
         'Non-trivial = >= 1 hit above the limit; distinct = hash of (rows, parameters).')
 ASSUMPTIONS = ['frames whose rows are all type>=2 hits above the limit (chunk emptied by the crop: known finding D8, decided by C08) are skipped']
 REQUIRED = ['limit_eq_hit_height', 'type_ge2_above', 'vv_above', 'n_above_eq_MAX_HITS_OKTA0', 'n_above_eq_MAX_HITS_OKTA0_plus1',
-            'msa_none', 'buffer_0', 'msa_0', 'flag_true', 'flag_false_with_hits_above', 'nonunique_index']
+            'msa_none', 'buffer_0', 'msa_0', 'flag_true', 'flag_false_with_hits_above', 'nonunique_index',
+            'type1_above_type2_below', 'noninteger_msa_and_buffer']
 SIZES = {'quick': 420, 'thorough': 9000}
 
 
@@ -35,6 +36,16 @@ def build(desc):
             for t in range(3):
                 rows.append(['vvc', -float(t) * 11.0 - 0.123, float(hs.max() + 10 * t), -1])
             sc['names'] = sc['names'] + ['vvc']
+    if i % 5 == 4:      # hit numbering that does not follow the height order (accepted silently)
+        per = {}
+        for j, r in enumerate(sc['rows']):
+            if r[3] > 0:
+                per.setdefault((r[0], r[1]), []).append(j)
+        for js in per.values():
+            if len(js) > 1:
+                ts = [sc['rows'][j][3] for j in js]
+                for j, t in zip(js, ts[::-1]):
+                    sc['rows'][j][3] = t
     hs = np.sort(np.unique(scenes.heights_of(sc)))
     prm = scenes.gen_prms(rng, sc, msa=False, rich=(i % 4 == 0))
     call = prm['call']
@@ -59,6 +70,8 @@ def build(desc):
             limit = float(rng.uniform(0, hs[-1]))
         if limit - buf < 0:
             buf = 0.0
+        if i % 3 == 1 and limit > 2:
+            buf = float(np.round(limit * rng.uniform(0.05, 0.4), 3)) + 0.0517
         call['MSA'] = limit - buf
         if call['MSA'] + buf != limit:          # float addition must reproduce the limit exactly
             call['MSA'], buf = limit, 0.0
@@ -86,6 +99,11 @@ def variants(rng, sc, limit):
     idx_m, idx_g = [], []
     index = sc.get('index')
     k = 0
+    stays = {}          # measurements that keep a hit at or below the limit
+    for r in sc['rows']:
+        if r[2] == r[2] and r[2] <= limit:
+            stays[(r[0], r[1])] = True
+    same_rows = True
     for j, r in enumerate(sc['rows']):
         if r[2] == r[2] and r[2] > limit:
             k += 1
@@ -93,7 +111,9 @@ def variants(rng, sc, limit):
             if not h > limit:
                 h = float(np.nextafter(limit, np.inf))
             moved.append([r[0], r[1], h, r[3]])
-            if r[3] <= 1:
+            if r[3] <= 1 and (r[0], r[1]) in stays:
+                same_rows = False       # a non-detection cannot coexist with the remaining hit: remove instead
+            elif r[3] <= 1:
                 gone.append([r[0], r[1], float('nan'), 0])
                 idx_g.append(j)
         else:
@@ -104,6 +124,7 @@ def variants(rng, sc, limit):
     a2 = dict(sc, rows=gone)
     if index is not None:
         a2['index'] = [index[j] for j in idx_g]
+    a2['same_rows'] = same_rows
     return a1, a2
 
 
@@ -158,6 +179,14 @@ def check(desc):
         if n_above == o0 + 1:
             tags.add('n_above_eq_MAX_HITS_OKTA0_plus1')
         tags.add('flag_true' if oa['flag'] else ('flag_false_with_hits_above' if n_above else 'nothing_above'))
+        stamps = {}
+        for r in sc['rows']:
+            if r[2] == r[2]:
+                stamps.setdefault((r[0], r[1]), []).append(r)
+        if any(any(x[3] <= 1 and x[2] > limit for x in v) and any(x[3] >= 2 and x[2] <= limit for x in v) for v in stamps.values()):
+            tags.add('type1_above_type2_below')
+        if eff['MSA'] != int(eff['MSA']) and eff['MSA_HIT_BUFFER'] != int(eff['MSA_HIT_BUFFER']):
+            tags.add('noninteger_msa_and_buffer')
         if sc.get('index') is not None and n_above:
             tags.add('nonunique_index')
         if n_above:
@@ -172,7 +201,7 @@ def check(desc):
                     oracles.V(viol, 'C07', 'variant run raises', variant=name, **twin.exc_info(ev))
                     continue
                 d = obs.first_diff(twin.tables_only(oa), twin.tables_only(ov))
-                if d is None:
+                if d is None and v.get('same_rows', True):
                     d = obs.first_diff(oa['data'], ov['data'])
                 if d is not None:
                     oracles.V(viol, 'C07', 'tables / per-hit data differ when the hits above the limit are ' + name,
